@@ -272,6 +272,9 @@ macro_rules! transcript_path {
         $t.push(format!("with_extension {}", show(&p.with_extension($a), w)));
         $t.push(format!("to_path_buf {}", show(&p.to_path_buf(), w)));
         $t.push(format!("y.display-specs {}", p.fmt_specs()));
+        // what is fed to a Hasher, write by write, by the borrowed and by the owned value (a hasher that is
+        // sensitive to the boundaries — Fx, ahash — sees them); compared between the two builds
+        $t.push(format!("y.hash-writes {} owned {}", crate::ops::hash_chunks(&p).iter().map(|c| hex(c)).collect::<Vec<_>>().join("|"), crate::ops::hash_chunks(&p.to_path_buf()).iter().map(|c| hex(c)).collect::<Vec<_>>().join("|")));
         {
             // the component ITERATORS carry their own Eq / PartialOrd impls (not the Iterator adaptors)
             let j = p.join($a);
